@@ -9,7 +9,8 @@ payload {"mode": "gen", "seeds": [int...], "length": [lo, hi], "malformed": 0.15
 History {"seed", "schema", "ops", "results": [res per op], "dumps": [dump per commit/rollback/newsession op, + one final],
          "oracle": [{"check", "op_index", "op", "detail"}...]   property-oracle failures (C11 indexes / identity, C12 both ends,
                                                                  C14 committed uniqueness + failed commit leaves the DB unchanged,
-                                                                 queue: created/modified objects are queued for saving),
+                                                                 queue: created/modified objects are queued for saving;
+                                                                 C09 committed rows / C10 reads against the logical reference state of session_spec.py),
          "sqlite": version}
 
 Runner(schema, path).run_op(op) -> res; .dump() -> dump; .finish().  The handle table, result canonicalisation and dump format are
@@ -18,6 +19,7 @@ described at the top of session_fuzz.py.
 import json, os, random, shutil, sqlite3, sys, tempfile, warnings
 
 import session_fuzz as sf
+import session_spec
 
 warnings.simplefilter('ignore')
 
@@ -56,6 +58,10 @@ class Runner(object):
         self.op_index = -1
         self.last_dump = None
         self.in_session = False
+        self.spec = session_spec.Spec(schema)
+        self.handles_before = []
+        self.finish_error = None
+        self.finished = False
         self.begin()
 
     # ---- session structure
@@ -70,14 +76,18 @@ class Runner(object):
         if cur is not self.cache or cur is None or not cur.is_alive:
             self.handles = []
             self.cache = self.db._get_cache()
+            return True
+        return False
 
     def finish(self):
+        first = not self.finished
+        self.finished = True
         try:
             if self.in_session:
                 self.in_session = False
                 orm.db_session.__exit__(None, None, None)
-        except Exception:
-            pass
+        except Exception as e:
+            if first: self.finish_error = type(e).__name__
         finally:
             try: orm.rollback()
             except Exception: pass
@@ -117,15 +127,39 @@ class Runner(object):
     # ---- one op
     def run_op(self, op):
         self.op_index += 1
+        self.handles_before = list(self.handles)
         try:
             res = self._run(op)
         except BaseException as e:
             if isinstance(e, (KeyboardInterrupt, SystemExit, MemoryError)): raise
             res = ['err', sf.EXC2KIND.get(type(e).__name__, 'Other')]
             if res[1] == 'Other': res.append(type(e).__name__)
-        self.sync_cache()
-        if self.oracle: self.check_oracles(op, res)
+        changed = self.sync_cache()
+        if self.oracle:
+            self.check_oracles(op, res)
+            self.spec_step(op, res, changed)
         return res
+
+    # ---- C09 / C10: the logical reference state (session_spec.py)
+    def spec_step(self, op, res, changed):
+        try:
+            self.spec.step(op, res, self, changed)
+        except Exception as e:
+            import traceback
+            self.spec.stopped = 'internal error'
+            self.violation('c09-spec-internal-error', op, traceback.format_exc()[-600:])
+        for check, detail in self.spec.violations:
+            self.violation(check, op, detail + ' (op result %s)' % (res,))
+        self.spec.violations = []
+
+    def spec_dump(self, op, res, d):
+        try:
+            v = self.spec.check_dump(d)
+        except Exception as e:
+            import traceback
+            self.spec.stopped = 'internal error'
+            v = ('c09-spec-internal-error', traceback.format_exc()[-600:])
+        if v is not None: self.violation(v[0], op, v[1])
 
     def _run(self, op):
         k = op[0]; S = self.schema['ents']
@@ -352,6 +386,10 @@ class Runner(object):
         if op is not None and res[0] == 'err' and self.last_dump is not None and d != self.last_dump:
             self.violation('c14-failed-commit-changed-db', op, 'commit raised %s but the database changed' % res[1])
         self.last_dump = d
+        if op is None:
+            # end of the history: leaving the db_session commits (or rolls back when the commit failed)
+            self.spec.step(['newsession'], ['err', self.finish_error] if self.finish_error else ['ok'], self, True)
+        self.spec_dump(op, res, d)
 
 
 def run_history(schema, ops=None, gen=None, length=0, oracle=True, tmpdir=None):
@@ -380,6 +418,7 @@ def run_history(schema, ops=None, gen=None, length=0, oracle=True, tmpdir=None):
                 if oracle: r.check_dump(op, res, d)
         r.finish()
         d = r.dump(); dumps.append(d)
+        r.op_index = n          # violations found in the final dump are attributed to the end of the history
         if oracle: r.check_dump(None, ['ok'], d)
     finally:
         r.finish()
